@@ -324,7 +324,7 @@ pub fn applicable_errnos(kind: &str, flags: i64) -> Vec<&'static str>
             }
         },
         "write" => vec!["EIO", "ENOSPC"],
-        "rename" => vec!["EXDEV", "EACCES", "EIO"],
+        "rename" => vec!["EXDEV", "EACCES", "EIO", "EEXIST", "EBUSY"],
         "unlink" => vec!["EACCES", "EIO"],
         "read" => vec!["EIO"],
         "close" => vec!["EIO"],
